@@ -635,4 +635,38 @@ theorem firstLive_none_iff (sa : Bool) (ds : List Decl) (h : ds.any Decl.isPeRef
     simp only [List.any_cons, Bool.or_eq_false_iff] at h
     cases d <;> simp_all [firstLive, Decl.isEntity, Decl.isPeRef]
 
+/-! ### the event model -/
+
+/-- the verdict of the scan is the first processed entity declaration -/
+theorem firstLive_eq_headAux (sa : Bool) (ds : List Decl) :
+    ∀ keep, firstLive sa keep ds =
+      ((liveEntsAux sa keep [] ds).head?).map (fun e => entityVerdict e.2.1 e.2.2) := by
+  induction ds with
+  | nil => intro keep; rfl
+  | cons d ds ih =>
+    intro keep
+    cases d with
+    | entity param name df =>
+      cases keep with
+      | true => simp [firstLive, liveEntsAux]
+      | false => simpa [firstLive, liveEntsAux] using ih false
+    | peRef name => simpa [firstLive, liveEntsAux] using ih (keep && sa)
+    | notationDecl name id => simpa [firstLive, liveEntsAux] using ih keep
+    | element name spec => simpa [firstLive, liveEntsAux] using ih keep
+    | attlist el atts => simpa [firstLive, liveEntsAux] using ih keep
+    | comment body => simpa [firstLive, liveEntsAux] using ih keep
+    | pi t bd => simpa [firstLive, liveEntsAux] using ih keep
+    | space ws => simpa [firstLive, liveEntsAux] using ih keep
+
+theorem firstLive_eq_head (sa : Bool) (ds : List Decl) (keep : Bool) :
+    firstLive sa keep ds = ((liveEnts sa keep ds).head?).map (fun e => entityVerdict e.2.1 e.2.2) :=
+  firstLive_eq_headAux sa ds keep
+
+theorem firstLive_none_iff_live (sa : Bool) (keep : Bool) (ds : List Decl) :
+    firstLive sa keep ds = none ↔ liveEnts sa keep ds = [] := by
+  rw [firstLive_eq_head]
+  cases liveEnts sa keep ds <;> simp
+
+theorem lookupGeneral_nil (name : Bytes) : lookupGeneral name [] = none := rfl
+
 end XsVerif.Prolog
